@@ -94,6 +94,28 @@ def run(chk: core.Check, tier: str, seed: int) -> None:
         for pl, pr in combos:
             for op in (OPS if tier != "quick" else rng.sample(OPS, 3)):
                 recs.append(impl.rec_find(jp, f"$.t[?{pl}{sp.S()}{op}{sp.S()}{pr}]", doc, edoc=edoc))
+    # systematic floor under the sampling: every comparand through every producer, against itself and
+    # against its neighbour in the list, all six operators
+    for i, a in enumerate(COMPARANDS):
+        for b in (a, COMPARANDS[(i + 1) % len(COMPARANDS)]):
+            member = {}
+            if a is not NOTHING:
+                member["l"] = a
+            if b is not NOTHING:
+                member["r"] = b
+            doc = {"t": [member], "c": [x for x in (a, b) if x is not NOTHING]}
+            try:
+                edoc = core.enc_value(doc)
+            except core.Unrepresentable:
+                continue
+            for pl, pr in (("@.l", "@.r"), ("value(@.l)", "@.r"), ("@.l", "value(@.r)"), ("value(@.l)", "value(@.r)"),
+                           ("$.t[0].l", "$.t[0].r")):
+                for op in OPS:
+                    recs.append(impl.rec_find(jp, f"$.t[?{pl} {op} {pr}]", doc, edoc=edoc))
+            if a is not NOTHING and not isinstance(a, (list, dict)):
+                for op in OPS:
+                    recs.append(impl.rec_find(jp, f"$.t[?value(@.r) {op} {lit(sp, a)}]", doc, edoc=edoc))
+                    recs.append(impl.rec_find(jp, f"$.t[?{lit(sp, a)} {op} value(@.l)]", doc, edoc=edoc))
     for r in recs:
         chk.nontrivial.add((tuple(r["q"]), str(r["doc"])[:300]))
     chk.sample({"query": core.dec_text(recs[5]["q"]), "doc": core.dec_value(recs[5]["doc"]), "locs": recs[5]["locs"]})
